@@ -129,6 +129,28 @@ std::string hx(uint32_t v) { char b[16]; std::snprintf(b, sizeof b, "%08x", v); 
 struct Teleport { uint64_t at; uint32_t pc, a, b, o; bool hasMem; uint32_t maddr, mval; };
 struct Pulse { uint64_t at; unsigned len; };
 
+// Systematic part of the search: one instruction byte against every combination of the corner
+// values below, one instruction per combination (teleport, step, compare).
+std::vector<Teleport> gridTeleports(uint8_t inst, uint32_t base) {
+  std::vector<Teleport> out;
+  base &= ~3u;                                                       // a word inside the image region
+  static const uint32_t A[] = {0, 1, 2, 3, 0x7FFFFFFF, 0x80000000u, 0x80000001u, 0xFFFFFFFFu, 0xFFFFFFF0u, 199999, 200000, 40};
+  static const uint32_t B[] = {0, 1, 3, 0x7FFFFFFE, 0x80000000u, 0xFFFFFFFFu, 0xFFFFFFFCu, 199998, 200001, 44, 800000, 799999};
+  static const uint32_t O[] = {0, 0x10, 0xF0, 0xFFFFFF00u, 0xFFFFFFF0u, 0x00030D40u, 0x7FFFFFF0u, 0x80000000u};
+  uint64_t at = 0;
+  for (uint32_t lane = 0; lane < 4; lane++)
+    for (uint32_t a : A) for (uint32_t b : B) for (uint32_t o : O) {
+      if (inst == 0xD3 && o == 0 && a == 0) continue;                // EXIT ends a run: left to the random part
+      Teleport t;
+      t.at = at++;
+      t.pc = base + lane; t.a = a; t.b = b; t.o = o;
+      t.hasMem = true; t.maddr = base >> 2;
+      t.mval = (0x30303030u & ~(0xFFu << (lane * 8))) | ((uint32_t)inst << (lane * 8));   // neighbours: LDAC 0
+      out.push_back(t);
+    }
+  return out;
+}
+
 struct PlanView {
   std::string mode;              // c02 | c03 | c16prog | c16free
   uint64_t maxSteps = 2000;
@@ -166,6 +188,13 @@ PlanView view(const Json &plan) {
     } else if (k == "simin") { unsigned i = (unsigned)(op.getU64("idx") & 7); v.siminPresent[i] = true; v.simin[i] = sim::fromHex(op.getStr("hex")); }
     else if (k == "simout_pre") { unsigned i = (unsigned)(op.getU64("idx") & 7); v.simoutPrePresent[i] = true; v.simoutPre[i] = sim::fromHex(op.getStr("hex")); }
     else if (k == "arena") { v.dirtyArena = true; v.arenaSeed = op.getU64("seed"); }
+    else if (k == "grid") {
+      // Systematic part of the search: one instruction byte against every combination of the
+      // corner values below, one instruction per combination (teleport, step, compare).
+      std::vector<Teleport> g = gridTeleports((uint8_t)op.getU64("inst"), (uint32_t)op.getU64("base", 64));
+      v.teleports.insert(v.teleports.end(), g.begin(), g.end());
+      v.maxSteps = g.size();
+    }
   }
   // Every run started from reset has oreg[3:0] == 0 at instruction boundaries (oreg is 0, or the
   // result of PFIX/NFIX, which shift by four).  The RTL decodes OPR from the instruction's own
@@ -249,6 +278,28 @@ public:
     std::string mode = property == "C02" ? "c02" : property == "C03" ? "c03" : (index % 2 ? "c16free" : "c16prog");
     cfg["mode"] = mode;
     bool thorough = tier == "thorough";
+    if (index >= 1000 && index < 1256) {
+      // Systematic part: instruction byte (index - 1000) against the corner-state grid.
+      unsigned inst = (unsigned)(index - 1000);
+      if (mode == "c16free" || mode == "c16prog") {
+        cfg["mode"] = "c16free"; cfg["max_steps"] = 1;
+        Json po = Json::object(); po["op"] = "poweron"; po["seed"] = (unsigned long long)(r.next() >> 16); ops.push(po);
+        Json g = Json::object(); g["op"] = "gridfree"; g["inst"] = inst; ops.push(g);
+      } else {
+        cfg["max_steps"] = 1;
+        Json im = Json::object(); im["op"] = "image";
+        // BR to byte 8; stack pointer 150000; then LDAC 0 filler up to word 32.
+        std::string img = std::string("\x97\x30\x30\x30", 4);
+        uint32_t sp = 150000; for (int q = 0; q < 4; q++) img.push_back((char)(sp >> (8 * q)));
+        img += std::string(30 * 4, '\x30');
+        im["hex"] = sim::toHex(img); ops.push(im);
+        Json in = Json::object(); in["op"] = "input"; std::string data; for (int q = 0; q < 64; q++) data.push_back((char)r.below(256)); in["hex"] = sim::toHex(data); ops.push(in);
+        if (mode != "c02") { Json po = Json::object(); po["op"] = "poweron"; po["seed"] = (unsigned long long)(r.next() >> 16); ops.push(po); }
+        Json g = Json::object(); g["op"] = "grid"; g["inst"] = inst; g["base"] = 64; ops.push(g);
+      }
+      plan["config"] = cfg; plan["ops"] = ops;
+      return plan;
+    }
     // Swarm: which fault kinds this run may use.
     bool fTeleport = r.chance(1, 2), fPulse = r.chance(1, 2), fFiles = r.chance(1, 3), fShortIn = r.chance(1, 2), fPoweron = true;
     uint64_t maxSteps = 200 + r.below(thorough ? 20000 : 4000);
@@ -351,12 +402,31 @@ public:
     if (p.at("config").getStr("mode") == "c16free") {
       Json ops = Json::array();
       for (auto &op : p["ops"].a) {
+        if (op.getStr("op") == "gridfree") {
+          for (auto &t : gridFreeSteps((uint8_t)op.getU64("inst"))) ops.push(tpToJson(t));
+          continue;
+        }
         if (op.getStr("op") != "free") { ops.push(op); continue; }
         Json fc = Json::object(); fc["op"] = "free_cfg"; fc["undef"] = op.getBool("undef", true); ops.push(fc);
         for (auto &t : expandFree(op.getU64("seed"), 1 + op.getU64("period") % 8, p.at("config").getU64("max_steps", 2000))) ops.push(tpToJson(t));
       }
       p["ops"] = ops;
       return p;
+    }
+    {
+      // Grid plans become explicit teleports so that the shrinker can cut them down.
+      Json ops = Json::array();
+      for (auto &op : p["ops"].a) {
+        if (op.getStr("op") != "grid") { ops.push(op); continue; }
+        std::vector<Teleport> g = gridTeleports((uint8_t)op.getU64("inst"), (uint32_t)op.getU64("base", 64));
+        for (auto &t : g) {
+          Json j = Json::object();
+          j["op"] = "teleport"; j["at"] = (unsigned long long)t.at; j["pc"] = t.pc; j["areg"] = t.a; j["breg"] = t.b; j["oreg"] = t.o; j["maddr"] = t.maddr; j["mval"] = t.mval;
+          ops.push(j);
+        }
+        p["config"]["max_steps"] = (unsigned long long)g.size();
+      }
+      p["ops"] = ops;
     }
     for (auto &op : p["ops"].a) {
       if (op.getStr("op") == "image" && op.has("corpus")) {
@@ -455,7 +525,13 @@ public:
         chain = 0;
       }
       hexref::Domain d = ref.classifyNext(false, false);
-      if (d != hexref::D_OK) { o.note = std::string("cut:") + hexref::domainName(d); o.count(std::string("cut.") + hexref::domainName(d)); break; }
+      if (d != hexref::D_OK) {
+        o.count(std::string("cut.") + hexref::domainName(d));
+        // A later teleport re-establishes a state: skip to it instead of ending the run.
+        if (ti < v.teleports.size()) { if (v.teleports[ti].at > step) step = v.teleports[ti].at - 1; o.count("probe.resumed_at_next_teleport"); continue; }
+        o.note = std::string("cut:") + hexref::domainName(d);
+        break;
+      }
       uint8_t inst = ref.byteAt(ref.pc);
       uint32_t operand = ref.oreg | (inst & 15);
       unsigned missing0 = rio.missingFileReads;
@@ -669,7 +745,12 @@ public:
         chain = 0;
       }
       hexref::Domain d = ref.classifyNext(true, false);
-      if (d != hexref::D_OK) { o.note = std::string("cut:") + hexref::domainName(d); o.count(std::string("cut.") + hexref::domainName(d)); break; }
+      if (d != hexref::D_OK) {
+        o.count(std::string("cut.") + hexref::domainName(d));
+        if (ti < v.teleports.size()) { if (v.teleports[ti].at > clk) clk = v.teleports[ti].at - 1; o.count("probe.resumed_at_next_teleport"); continue; }
+        o.note = std::string("cut:") + hexref::domainName(d);
+        break;
+      }
       uint8_t inst = ref.byteAt(ref.pc);
       uint32_t operand = ref.oreg | (inst & 15);
       uint32_t aBefore = ref.areg;
@@ -805,6 +886,20 @@ public:
     }
     return v;
   }
+  static std::vector<Tp> gridFreeSteps(uint8_t inst) {
+    std::vector<Tp> out;
+    static const uint32_t A[] = {0, 1, 2, 3, 0x7FFFFFFF, 0x80000000u, 0x80000001u, 0xFFFFFFFFu, 0xFFFFFFF0u, 0x0007FFFF, 0x00080000, 0x001FFFFF};
+    static const uint32_t B[] = {0, 1, 3, 0x7FFFFFFE, 0x80000000u, 0xFFFFFFFFu, 0xFFFFFFFCu, 0x0007FFFE, 0x00080001, 0x001FFFFF, 0x00200000, 44};
+    static const uint32_t O[] = {0, 1, 0x10, 0xF0, 0xFFFFFF00u, 0xFFFFFFF0u, 0x0007FFF0, 0x00080000, 0x001FFFF0, 0x00200000, 0x7FFFFFF0u, 0x80000000u};
+    static const uint32_t P[] = {0, 1, 2, 3, 0x1FFFFC, 0x1FFFFF, 0x0FFFFE, 4097};
+    for (uint32_t pc : P) for (uint32_t a : A) for (uint32_t b : B) for (uint32_t o2 : O) {
+      Tp t; t.pc = pc; t.a = a; t.b = b; t.o = o2; t.clocks = 1; t.readval = (a ^ b) & 0xFF; t.pulse = false;
+      unsigned lane = pc & 3;
+      t.mval = (0x30303030u & ~(0xFFu << (lane * 8))) | ((uint32_t)inst << (lane * 8));
+      out.push_back(t);
+    }
+    return out;
+  }
   static Json tpToJson(const Tp &t) {
     Json j = Json::object();
     j["op"] = "tp"; j["pc"] = t.pc; j["areg"] = t.a; j["breg"] = t.b; j["oreg"] = t.o; j["mval"] = t.mval;
@@ -829,6 +924,10 @@ public:
         t.mval = (uint32_t)op.getU64("mval"); t.clocks = 1 + (unsigned)((op.getU64("clocks") + 7) % 8); t.readval = (uint32_t)op.getU64("readval") & 0xFF; t.pulse = op.getBool("pulse");
         tps.push_back(t);
       } else if (k == "free_cfg") undef = op.getBool("undef", true);
+      else if (k == "gridfree") {
+        std::vector<Tp> g = gridFreeSteps((uint8_t)op.getU64("inst"));
+        tps.insert(tps.end(), g.begin(), g.end());
+      }
     }
     Rtl<Vsv> &a = *g_sv; Rtl<Vv> &b = *g_v; Rtl<Vsy> &c = *g_sy;
     // Same memory in all replicas; different register garbage, then reset.
